@@ -51,6 +51,8 @@ def main(argv):
     jobs = []
     for prop in props:
         for s in sorted(d for d in glob.glob(os.path.join(HERE, "seeded", f"{prop}-*")) if os.path.isdir(d)):
+            if os.environ.get("VERIF_CROSS_SINCE") and int(os.path.basename(s).rsplit("-", 1)[1]) <= int(os.environ["VERIF_CROSS_SINCE"]):
+                continue  # (an increment: only seeds newer than that index)
             for n in names:
                 jobs.append((prop, os.path.join(s, "patch.diff"), n))
     tally = {}
